@@ -65,6 +65,12 @@ def vhd_spec(draw, tier="quick", layer=0, kind=None):
         dyn_off = tab_off + bat_len + gap2
         base = dyn_off + 1024
     base_sec = base // 512 + draw(st.sampled_from([0, 0, 1, 7]))
+    # BAT entries are unsigned 32-bit sector numbers: place the data area of some images beyond 2^31 sectors (> 1 TiB file)
+    hi = draw(st.sampled_from([0, 0, 0, (1 << 31) - 3, 1 << 31, 0xC0000000, 0xFFFFFF00]))
+    if hi:
+        span_ = bvhd.bitmap_sectors(bs) + bs // 512
+        need = (max(slots, default=0) + 2) * (span_ + 3)
+        base_sec = max(base_sec, min(hi, (1 << 32) - 2 - need))
     span = bvhd.bitmap_sectors(bs) + bs // 512
     pad = draw(st.sampled_from([0, 0, 1, 3]))
     return {
